@@ -253,6 +253,7 @@ pub fn run(rep: &mut Report, property: &str, cfgname: &str, sc: SoloCfg) {
         canon_certs: true,
         max_states: sc.max_states,
         wall_cap_s: sc.wall_cap_s,
+        big_pool: false,
     };
     let s = Search::new(cfg.clone());
     let l0 = s.boot_local(sc.node);
